@@ -238,6 +238,11 @@ func Table() []Route {
 			Build: func(fx *Fixture) *s3c.Req {
 				return s3c.PutObject(fx.Alpha, "newkey", []byte("fresh data "+strings.Repeat("x", 3000)))
 			}, PathLike: []string{"bucket", "key"}},
+		// the same upload onto a key that exists (in a versioned bucket the current version is archived first)
+		{ID: "PutObjectOverwrite", Method: "PUT", Shape: "object", Mutates: true, Action: "s3:PutObject", ResKind: "object", ACL: "WRITE", Streams: true,
+			Build: func(fx *Fixture) *s3c.Req {
+				return s3c.PutObject(fx.Alpha, fx.Obj, []byte("replacement data "+strings.Repeat("y", 2500)))
+			}, PathLike: []string{"bucket", "key"}},
 		// an explicit directory object: an upload route whose (empty) body the backend has no reason to read
 		{ID: "PutDirectoryObject", Method: "PUT", Shape: "object", Mutates: true, Action: "s3:PutObject", ResKind: "object", ACL: "WRITE", Streams: true,
 			Build: func(fx *Fixture) *s3c.Req { return s3c.PutObject(fx.Alpha, "newdir/", nil) }, PathLike: []string{"bucket"}},
